@@ -101,8 +101,17 @@ def main():
         assert t2 != txt, mid
         open(p, 'w').write(t2)
         env = {'EG_REPO': S}
+        # the other table translators first (their tables feed some of the models), then r2c
+        others = []
+        for g in sorted(os.listdir(os.path.join(V, 'translate'))):
+            if g.startswith('gen_') and g.endswith('.py') and g != 'gen_r2c.py':
+                rc0, _ = sh('python3 translate/%s' % g, env)
+                if rc0 != 0:
+                    others.append(g)
         rc, o = sh('sh translate/r2c/run.sh', env)
         changed = re.findall(r'Gen/(\w+)\.v written', o)
+        if others:
+            changed.append('(also refused by: %s)' % ','.join(others))
         trc = rc
         sh('sh tools/gen_coqproject.sh')
         rc, o = sh('timeout 1500 make -k -j4 -C coq $(cd coq && ls Properties/*_src*.v | sed s/\\.v$/.vo/)')
@@ -124,7 +133,10 @@ def main():
         rows.append((mid, prop, what, kind, 'translator rc=%d; changed: %s' % (trc, ','.join(changed) or 'none'), lemma or 'all equivalence proofs still compile', verdict, '%.0fs' % (time.time() - t0)))
         print('| ' + ' | '.join(rows[-1]) + ' |', flush=True)
         sh('git -C /repo worktree remove --force %s; git -C /repo worktree prune' % S)
-    sh('sh translate/r2c/run.sh')   # back to /repo
+    for g in sorted(os.listdir(os.path.join(V, 'translate'))):
+        if g.startswith('gen_') and g.endswith('.py'):
+            sh('python3 translate/%s' % g)   # back to /repo
+    sh('sh translate/r2c/run.sh')
     sh('timeout 1500 make -j4 -C coq $(cd coq && ls Properties/*_src*.v | sed s/\\.v$/.vo/)')
 
 
